@@ -61,7 +61,9 @@ Definition OL : Learner :=
     (fun s => sn_npoints (cur s))
     (fun s => match sn_data (cur s) with Some d => d | None => [] end)
     (fun s => sn_pend (cur s))
-    (fun old s => snd (advance s CRestore))
+    (* utils.restore puts back a deep copy of the learner's __dict__: the public state is the
+       old one again; it is not a call on the learner, the log simply continues *)
+    (fun old s => mkost (rest s) (cur old) (bad s))
     (fun _ => tt)
     (fun s _ => snd (advance s CSetData)).
 
